@@ -250,7 +250,7 @@ func (s *c17PoolSM) cancelWaiter(rt *rapid.T) {
 	// cancelled goroutine has nothing to deliver and must end.
 	if n := c17WaitGoroutines("peers.(*pool).next.func1", len(pend)-1); n > len(pend)-1 {
 		rt.Fatalf("C17/cancellation-honoured: %d goroutine(s) of pool.next alive %s after cancelling waiter #%d, expected %d\nhistory:\n%s",
-			n, c17HangBound, w.n, len(pend)-1, s.history())
+			n, c17Bound(), w.n, len(pend)-1, s.history())
 	}
 	select {
 	case id := <-w.ch:
@@ -283,7 +283,7 @@ func (s *c17PoolSM) settle(rt *rapid.T) {
 		if !ok {
 			c17ShrinkBound()
 			rt.Fatalf("C17/waiters-woken: waiter #%d was not handed a peer within %s although %v are active\nhistory:\n%s",
-				w.n, c17HangBound, c17IDs(act), s.history())
+				w.n, c17Bound(), c17IDs(act), s.history())
 		}
 		s.logf("waiter #%d was handed a peer", w.n)
 		if !s.m.isActive(id) {
@@ -300,7 +300,7 @@ func (s *c17PoolSM) settle(rt *rapid.T) {
 
 // c17ShrinkBound shortens the liveness bound after a first hang was seen, so that shrinking the
 // failing sequence stays affordable (5 s is still > 5 orders of magnitude above a wake-up).
-func c17ShrinkBound() { c17HangBound = 5 * time.Second }
+func c17ShrinkBound() { c17HangBoundNs.Store(int64(5 * time.Second)) }
 
 func (s *c17PoolSM) check(rt *rapid.T) {
 	s.settle(rt)
@@ -376,7 +376,7 @@ func TestVerifC17_PoolModel(t *testing.T) {
 			}
 			if n := c17WaitNoGoroutine("peers.(*pool).next.func1"); n > 0 && !rt.Failed() {
 				rt.Fatalf("C17/cancellation-honoured: %d goroutine(s) of pool.next still alive %s after their context was cancelled\nhistory:\n%s",
-					n, c17HangBound, s.history())
+					n, c17Bound(), s.history())
 			}
 		}()
 
